@@ -89,6 +89,18 @@ CHECKS = {
         "Trusted: CPython datetime/calendar; day<->date bijection (C01).",
         "DESIGN.md §2 C16",
     ),
+    "C09": (
+        "exploration",
+        "Hypothesis property-based testing: day-number and month-line reference models, documented year rules, algebraic laws of Period.between/normalize",
+        "Generated (calendar, date, amount) and (calendar, start, end, unit subset) cases over all calendars: "
+        "plus_days/plus_weeks against the day-number line, plus_months against a month line built from the public "
+        "tables, plus_years against the documented rules (Hebrew Adar/30th rules re-implemented from the docs), raise "
+        "iff the calendar range is left; Period.between: result between start and end, exact with the finest unit, "
+        "one sign, only requested units, single unit maximal; normalize/to_duration preserve the fixed-length total. "
+        "Thorough adds exhaustive (date, n in [-40,40]) month/year arithmetic on the small calendars.",
+        "Trusted: CPython ints; ref/calendars.py Hebrew month lengths; day<->date bijection (C01).",
+        "DESIGN.md §2 C09",
+    ),
 }
 
 NOT_YET = {}
